@@ -3,6 +3,7 @@ from pyvc.contracts import contract
 from pyvc.vocab import forall, implies, items_of
 from tapescript.errors import ScriptExecutionError
 from contracts.common import stack_ok, tape_ok
+from collections import deque
 
 
 @contract('classes.Stack.put')
@@ -27,6 +28,21 @@ class Stack_put:
 
     def ensures(old, self, item, result, raised):
         return stack_ok(self)
+
+
+@contract('classes.Stack.__init__')
+class Stack_init:
+    """'Initialize an empty Stack.'  C07: the deque's maxlen is the item limit."""
+    params = {'self': 'Stack', 'max_items': 'int', 'max_item_size': 'int'}
+    modifies = ('self.deque', 'self.max_items', 'self.max_item_size')
+
+    def spec(self, max_items, max_item_size):
+        self.max_items = max_items
+        self.max_item_size = max_item_size
+        self.deque = deque(maxlen=max_items)
+
+    def ensures(old, self, max_items, max_item_size, result, raised):
+        return [('maxlen', self.deque.maxlen == self.max_items), ('empty', len(self.deque) == 0)]
 
 
 @contract('classes.Stack.get')
